@@ -71,6 +71,11 @@ def chunk_main(pid, seed, lo, hi, sample_mod, conn, want_samples):
 
         faulthandler.enable()
         prop = engine.get_property(pid)
+        if getattr(prop, "uses_restart", False):
+            from egsim import restart
+
+            # before this process has built a single edgegraph object
+            restart.start_zygote()
         for i in range(lo, hi):
             run_seed = seams.derive_seed(pid, seed, i)
             try:
